@@ -112,6 +112,8 @@ type Driver struct {
 	// queries with a matched reply (and under which ID).
 	Answered map[Pair]bool
 	delay    atomic.Int64 // what QueryResendDelay returns, ns
+	// forceBucket >= 0: the next "other-id" answer uses an ID of that bucket.
+	forceBucket int
 }
 
 const longDelay = int64(time.Hour)
@@ -128,7 +130,7 @@ func NewDriver(r *gen.Rand, enforce bool, block *Blocklist, passive bool, opts .
 	for _, o := range opts {
 		o(&cfg)
 	}
-	d := &Driver{R: r, Enforce: enforce, Block: block, Answered: map[Pair]bool{}, LateBlock: late, blockInstalled: block != nil && !late}
+	d := &Driver{forceBucket: -1, R: r, Enforce: enforce, Block: block, Answered: map[Pair]bool{}, LateBlock: late, blockInstalled: block != nil && !late}
 	// Outbound queries never time out by themselves (the driver cancels them when a scenario wants
 	// a failure), so that no verdict depends on answering within a wall-clock window.
 	d.delay.Store(longDelay)
@@ -492,6 +494,10 @@ func (d *Driver) QuestionablePing(n dht.VerifNode, answer string) Event {
 		id := n.Id
 		if answer == "other-id" {
 			id = d.newID(ua)
+			if d.forceBucket >= 0 && !d.Enforce {
+				id = d.R.IDWithPrefix(d.Root, d.forceBucket)
+				ev.Desc += fmt.Sprintf(" (new ID belongs in full bucket %d)", d.forceBucket)
+			}
 			np := Pair{n.Addr, id}
 			ev.Sender = &np
 			ev.Eligible = d.eligible(Contact{ua, id}, false)
@@ -540,7 +546,26 @@ func (d *Driver) Step(snap dht.VerifTableSnapshot) Event {
 			return d.InboundQuery(d.contact(), false)
 		}
 		n := gen.Pick(r, snap.Nodes)
-		return d.QuestionablePing(n, gen.Pick(r, []string{"ok", "timeout", "timeout", "other-id"}))
+		answer := gen.Pick(r, []string{"ok", "timeout", "timeout", "other-id", "other-id"})
+		if answer == "other-id" && r.Bool() {
+			// The node at that address answers under an ID that belongs in a bucket which is full at
+			// the moment (where the reply itself cannot be admitted), other than the entry's own.
+			per := map[int]int{}
+			for _, e := range snap.Nodes {
+				per[e.Bucket]++
+			}
+			var full []int
+			for b := 0; b < 160; b++ {
+				if per[b] >= snap.K && b != n.Bucket {
+					full = append(full, b)
+				}
+			}
+			if len(full) > 0 {
+				d.forceBucket = gen.Pick(r, full)
+				defer func() { d.forceBucket = -1 }()
+			}
+		}
+		return d.QuestionablePing(n, answer)
 	case k < 89 && d.Block != nil && len(d.Contacts) > 0:
 		// Block a known contact's address from now on (entries already admitted stay).
 		c := gen.Pick(r, d.Contacts)
@@ -555,6 +580,14 @@ func (d *Driver) Step(snap dht.VerifTableSnapshot) Event {
 	default:
 		return d.Age(gen.Pick(r, []time.Duration{time.Minute, 13 * time.Minute, 17 * time.Minute, time.Hour}))
 	}
+}
+
+// QuestionablePingOtherID: the maintenance ping of entry n is answered, from n's address, under a
+// fresh ID that belongs in the given bucket.
+func (d *Driver) QuestionablePingOtherID(n dht.VerifNode, bucket int) Event {
+	d.forceBucket = bucket
+	defer func() { d.forceBucket = -1 }()
+	return d.QuestionablePing(n, "other-id")
 }
 
 // Flood aims n fresh contacts at one bucket.
